@@ -42,7 +42,8 @@ class LuceneCheck:
     invalid_term_chars_re = re.compile(r"[+/-]")
 
     SIMPLE_EXPR_FIELDS = (
-        tree.Boost, tree.Proximity, tree.Fuzzy, tree.Word, tree.Phrase)
+        tree.Boost, tree.Proximity, tree.Fuzzy, tree.Word, tree.Phrase,
+        tree.Regex, tree.Range, tree.OpenRange)
 
     FIELD_EXPR_FIELDS = tuple(list(SIMPLE_EXPR_FIELDS) + [tree.FieldGroup])
 
@@ -72,6 +73,16 @@ class LuceneCheck:
 
     def check_range(self, item, parents):
         # TODO check lower bound <= higher bound taking into account wildcard and numbers
+        return iter([])
+
+    def check_phrase(self, item, parents):
+        return iter([])
+
+    def check_regex(self, item, parents):
+        return iter([])
+
+    @_check_children
+    def check_open_range(self, item, parents):
         return iter([])
 
     def check_word(self, item, parents):
@@ -104,7 +115,7 @@ class LuceneCheck:
 
     def _check_not_operator(self, item, parents):
         """Common checker for NOT and - operators"""
-        if self.zeal:
+        if self.zeal and parents:
             if isinstance(parents[-1], tree.OrOperation):
                 yield ("Prohibit or Not really means 'AND NOT' " +
                        "wich is inconsistent with OR operation in %s" % parents[-1])
